@@ -289,7 +289,7 @@ pub fn final_subsegments<F: Real>(run: &SweepRun<F>) -> Vec<(Ev<F>, Ev<F>)> {
 }
 
 /// C13: queue filling and planar subdivision.
-pub fn check_c13<F: Real>(case: &Case, a: &MP, b: &MP, run: &SweepRun<F>, tol: f64, st: &mut SweepStats) -> Result<(), String> {
+pub fn check_c13<F: Real>(_case: &Case, a: &MP, b: &MP, run: &SweepRun<F>, tol: f64, st: &mut SweepStats) -> Result<(), String> {
     if let Some(m) = &run.status_failure {
         return Err(m.clone());
     }
